@@ -24,6 +24,8 @@ pub enum Host {
 }
 pub struct Reuse {
     pub host: Host,
+    /// the workspace starts as DfsSpace::default() (empty maps) instead of DfsSpace::new(&g)
+    pub from_default: bool,
 }
 
 const E0: [(usize, usize); 5] = [(0, 1), (1, 2), (2, 0), (1, 1), (0, 2)];
@@ -54,7 +56,7 @@ macro_rules! path_both {
     }};
 }
 
-pub fn history(host: Host, e0: &[bool], e1: &[bool]) -> Vec<String> {
+pub fn history(host: Host, from_default: bool, e0: &[bool], e1: &[bool]) -> Vec<String> {
     let mut bad = vec![];
     match host {
         Host::Graph => {
@@ -65,7 +67,7 @@ pub fn history(host: Host, e0: &[bool], e1: &[bool]) -> Vec<String> {
                     g.add_edge(ids[a], ids[b], ());
                 }
             }
-            let mut space = DfsSpace::new(&g);
+            let mut space = if from_default { DfsSpace::default() } else { DfsSpace::new(&g) };
             topo_both!(&g, ids, &mut space, bad, "before growth");
             path_both!(&g, ids, &mut space, bad, "before growth");
             ids.push(g.add_node(()));
@@ -91,7 +93,7 @@ pub fn history(host: Host, e0: &[bool], e1: &[bool]) -> Vec<String> {
                     g.add_edge(ids[a], ids[b], ());
                 }
             }
-            let mut space = DfsSpace::new(&g);
+            let mut space = if from_default { DfsSpace::default() } else { DfsSpace::new(&g) };
             topo_both!(&g, ids, &mut space, bad, "before growth");
             path_both!(&g, ids, &mut space, bad, "before growth");
             ids.push(g.add_node(())); // reuses the vacancy
@@ -117,7 +119,7 @@ pub fn history(host: Host, e0: &[bool], e1: &[bool]) -> Vec<String> {
                     g.add_edge(ids[a], ids[b], ());
                 }
             }
-            let mut space = DfsSpace::new(&g);
+            let mut space = if from_default { DfsSpace::default() } else { DfsSpace::new(&g) };
             topo_both!(&g, ids, &mut space, bad, "before growth");
             path_both!(&g, ids, &mut space, bad, "before growth");
             ids.push(g.add_node(5));
@@ -141,7 +143,7 @@ pub fn history(host: Host, e0: &[bool], e1: &[bool]) -> Vec<String> {
                     g.add_edge(ids[a], ids[b], ());
                 }
             }
-            let mut space = DfsSpace::new(&g);
+            let mut space = if from_default { DfsSpace::default() } else { DfsSpace::new(&g) };
             topo_both!(&g, ids, &mut space, bad, "before growth");
             path_both!(&g, ids, &mut space, bad, "before growth");
             ids.push(g.add_node(()));
@@ -165,7 +167,7 @@ pub fn history(host: Host, e0: &[bool], e1: &[bool]) -> Vec<String> {
                     g.add_edge(ids[a], ids[b], ());
                 }
             }
-            let mut space = DfsSpace::new(&g);
+            let mut space = if from_default { DfsSpace::default() } else { DfsSpace::new(&g) };
             path_both!(&g, ids, &mut space, bad, "before growth");
             ids.push(g.add_node(()));
             for (k, &(a, b)) in E1.iter().enumerate() {
@@ -183,7 +185,7 @@ pub fn history(host: Host, e0: &[bool], e1: &[bool]) -> Vec<String> {
                     g.add_edge(ids[a], ids[b], ());
                 }
             }
-            let mut space = DfsSpace::new(&g);
+            let mut space = if from_default { DfsSpace::default() } else { DfsSpace::new(&g) };
             path_both!(&g, ids, &mut space, bad, "before growth");
             ids.push(g.add_node());
             for (k, &(a, b)) in E1.iter().enumerate() {
@@ -199,10 +201,10 @@ pub fn history(host: Host, e0: &[bool], e1: &[bool]) -> Vec<String> {
 
 impl Harness for Reuse {
     fn name(&self) -> String {
-        format!("reused_workspace/{:?}", self.host)
+        format!("reused_workspace/{:?}{}", self.host, if self.from_default { "/default" } else { "" })
     }
     fn bounds(&self) -> String {
-        format!("{:?} (directed) with 3 nodes and a solver-chosen subset of the edges {:?}; toposort and has_path_connecting (all pairs) with one DfsSpace; then a node and a solver-chosen subset of {:?} are added (and a node removed where the type allows) and the same DfsSpace is used again; every answer compared with a fresh workspace", self.host, E0, E1)
+        format!("{:?} (directed) with 3 nodes and a solver-chosen subset of the edges {:?}; toposort and has_path_connecting (all pairs) with one DfsSpace (created by new(&g) or by default()); then a node and a solver-chosen subset of {:?} are added (and a node removed where the type allows) and the same DfsSpace is used again; every answer compared with a fresh workspace", self.host, E0, E1)
     }
     fn run(&self, cfg: &Config) -> Stats {
         explore(
@@ -211,7 +213,7 @@ impl Harness for Reuse {
             |bits| {
                 let e0: Vec<bool> = (0..E0.len()).map(|k| bits[k].get()).collect();
                 let e1: Vec<bool> = (0..E1.len()).map(|k| bits[E0.len() + k].get()).collect();
-                let bad = history(self.host, &e0, &e1);
+                let bad = history(self.host, self.from_default, &e0, &e1);
                 if bad.is_empty() {
                     symx::engine::check("reused_workspace/same_as_fresh", "true");
                 } else {
@@ -224,7 +226,7 @@ impl Harness for Reuse {
         let e0: Vec<bool> = (0..E0.len()).map(|k| model_bool(m, &format!("r{}", k))).collect();
         let e1: Vec<bool> = (0..E1.len()).map(|k| model_bool(m, &format!("r{}", E0.len() + k))).collect();
         let desc = format!("initial edges {:?}, added with node 3: {:?}", E0.iter().zip(&e0).filter(|x| *x.1).map(|x| x.0).collect::<Vec<_>>(), E1.iter().zip(&e1).filter(|x| *x.1).map(|x| x.0).collect::<Vec<_>>());
-        match std::panic::catch_unwind(|| history(self.host, &e0, &e1)) {
+        match std::panic::catch_unwind(|| history(self.host, self.from_default, &e0, &e1)) {
             Err(p) => Replay::Reproduced(format!("reused_workspace/{:?}-panics", self.host), format!("{}: panicked: {}", desc, payload_msg(&p))),
             Ok(bad) => {
                 if bad.is_empty() {
